@@ -1,7 +1,7 @@
 //@ unit C17_ind
 //@ props C17 C02
 //@ strength proved-unbounded
-//@ min-verified 6
+//@ min-verified 4
 //@ assume split_matra's table is abstracted as an uninterpreted function here; its entries (the documented vowel splits) are checked by Kani unit C17_tabs
 //@ unverified sort_by_modified_combining_class (std stable sort + split_mut closure: out of reach for both verifiers, measured) ; constrain_vowel's full content-preservation contract (only index safety + termination here)
 use vstd::prelude::*;
